@@ -64,14 +64,18 @@ def drivers():
     return json.load(open(os.path.join(VERIF, 'replay', 'drivers.json')))
 
 def reproduce_known(k):
-    """a known finding applies only while its recorded input still fails on the real code"""
-    rp = k.get('replay')
-    if not rp: return dict(reproduced=False, why='no recorded input')
-    r = run_driver(rp['driver'], rp['input'])
-    if 'error' in r: return dict(reproduced=False, why=r['error'])
-    cl = r.get('clauses', {})
-    bad = [c for c in rp['clauses'] if cl.get(c) is False]
-    return dict(reproduced=len(bad) == len(rp['clauses']), observed=r.get('observed'), clauses=cl)
+    """a known finding applies only while every recorded input still fails on the real code"""
+    rps = k.get('replay')
+    if not rps: return dict(reproduced=False, why='no recorded input')
+    if isinstance(rps, dict): rps = [rps]
+    out = []
+    for rp in rps:
+        r = run_driver(rp['driver'], rp['input'])
+        if 'error' in r: return dict(reproduced=False, why=r['error'])
+        cl = r.get('clauses', {})
+        bad = [c for c in rp['clauses'] if cl.get(c) is False]
+        out.append(dict(ok=len(bad) == len(rp['clauses']), observed=r.get('observed')))
+    return dict(reproduced=all(o['ok'] for o in out), runs=out)
 
 def make_replay(pid, o, unit_res, seed):
     """write replays/<pid>-<clause>.json for a failed obligation; try to find a failing input"""
